@@ -59,6 +59,7 @@ class Eval:
     labels: list = field(default_factory=list)
     discs: list = field(default_factory=list)
     skipped: Optional[str] = None  # case outside the sound domain: reason (counted, not scored)
+    executions: int = 1  # runs of the code under test performed for this case (e.g. one per injected fault point)
 
     def add(self, kind, detail=None):
         self.discs.append(Disc(kind, detail))
@@ -192,6 +193,7 @@ class ShardCtx:
         self.t0 = time.time()
         self.budget_s = budget_s
         self.evaluations = 0
+        self.executions = 0
         self.nontrivial = set()
         self.all_hashes = set()
         self.labels = Counter()
@@ -223,6 +225,7 @@ class ShardCtx:
             self.skipped[ev.skipped] += 1
             return
         self.all_hashes.add(h)
+        self.executions += getattr(ev, "executions", 1)
         if ev.nontrivial:
             self.nontrivial.add(h)
         for lab in ev.labels:
@@ -250,6 +253,7 @@ class ShardCtx:
     def result(self):
         return {
             "evaluations": self.evaluations,
+            "executions": self.executions,
             "nontrivial": sorted(self.nontrivial),
             "distinct": len(self.all_hashes),
             "labels": dict(self.labels),
